@@ -51,3 +51,32 @@ func VerifC13ListOutbox(db *DB, hashSlot uint16) ([]HashSlotMigrationOutboxRow, 
 	}
 	return rows, iter.Error()
 }
+
+// VerifC13RawRows lists every raw key/value pair of one hash slot (row, index
+// and system spans), for diagnosing a state difference.
+func VerifC13RawRows(db *DB, hashSlot uint16) ([][2][]byte, error) {
+	if db == nil || db.meta == nil || db.meta.engine == nil {
+		return nil, ErrInvalidArgument
+	}
+	var out [][2][]byte
+	for _, span := range hashSlotAllDataSpans(HashSlot(hashSlot)) {
+		iter, err := db.meta.engine.NewIter(engine.Span{Start: span.Start, End: span.End}, engine.IterOptions{})
+		if err != nil {
+			return nil, err
+		}
+		for ok := iter.First(); ok; ok = iter.Next() {
+			value, err := iter.Value()
+			if err != nil {
+				iter.Close()
+				return nil, err
+			}
+			out = append(out, [2][]byte{append([]byte(nil), iter.Key()...), append([]byte(nil), value...)})
+		}
+		err = iter.Error()
+		iter.Close()
+		if err != nil {
+			return nil, err
+		}
+	}
+	return out, nil
+}
